@@ -28,6 +28,28 @@ pub fn clone_caches(src: &NetflowParser, dst: &mut NetflowParser) {
     dst.ipfix_parser.options_templates = src.ipfix_parser.options_templates.clone();
 }
 
+/// Complete rendering of a result element for equality between two runs (twin parsers,
+/// different partitions of one stream): the derived Debug text for decoded packets; for an
+/// Error element the kind of error and its `remaining` bytes - not the message text inside
+/// it, about which no property says anything (it may mention offsets or lengths that
+/// legitimately differ between two deliveries of the same packets)
+pub fn render(el: &NetflowPacket) -> String {
+    match el {
+        NetflowPacket::Error(e) => {
+            let kind = match &e.error {
+                netflow_parser::NetflowParseError::Incomplete(_) => "Incomplete",
+                netflow_parser::NetflowParseError::Partial(_) => "Partial",
+                netflow_parser::NetflowParseError::UnallowedVersion(_) => "UnallowedVersion",
+                netflow_parser::NetflowParseError::UnknownVersion(_) => "UnknownVersion",
+                #[allow(unreachable_patterns)]
+                _ => "other",
+            };
+            format!("Error({}, remaining = {})", kind, hex(&e.remaining))
+        }
+        other => format!("{:?}", other),
+    }
+}
+
 pub fn version_of(p: &NetflowPacket) -> Option<u16> {
     match p {
         NetflowPacket::V5(_) => Some(5),
@@ -277,7 +299,11 @@ pub fn val_eq(exp: &Exp, got: &FieldValue) -> bool {
         (Exp::I24(a), FieldValue::DataNumber(DataNumber::I24(b))) => a == b,
         (Exp::I32(a), FieldValue::DataNumber(DataNumber::I32(b))) => a == b,
         (Exp::IWide(_, _), _) => false,
-        (Exp::Str(a), FieldValue::String(b)) => a == b,
+        (Exp::Opaque, _) => true,
+        (Exp::Str(a, _), FieldValue::String(b)) => a == b,
+        // bytes that are not valid UTF-8 may also be kept as they are (what a lossless
+        // re-export needs): still "exactly the bytes the template allots to the field"
+        (Exp::Str(_, raw), FieldValue::Vec(b)) => raw == b && std::str::from_utf8(raw).is_err(),
         (Exp::F64Bits(a), FieldValue::Float64(b)) => *a == b.to_bits(),
         (Exp::Dur(a), FieldValue::Duration(b)) => a == b,
         (Exp::Ip4(a), FieldValue::Ip4Addr(b)) => *a == b.octets(),
